@@ -114,13 +114,13 @@ Definition is_none_val (v: value) : bool :=
 (* matching of a dataclass instance with the emitted members: every field in class order, under its
    alias; with omit_none a nullable field whose value is None has no member (it must still conform) *)
 (* types the serializer treats as nullable (only for these is the `is not None` test emitted):
-   Any, None, and Optional[X] = a union of exactly two members one of which is None (helpers.is_optional);
-   Union[int, None, str] and Literal[None] are not *)
+   Any, None, and every union with a direct None member (Optional[X], Union[int, None, str]; since /repo 906a805);
+   Literal[None] is not *)
 Definition is_tnone (t: ty) : bool := match t with TNone => true | _ => false end.
 Definition nullable (t: ty) : bool :=
   match t with
   | TAny | TNone => true
-  | TUnion [a; b] => is_tnone a || is_tnone b
+  | TUnion ts => existsb is_tnone ts
   | _ => false end.
 
 (* CodeBuilder.is_field_nullable (kernel K20; Annotated/Final wrappers are already removed in `ty`):
